@@ -17,7 +17,7 @@ func init() {
 		ThoroughConfigs: []string{"elpscheck"},
 	})
 	registerProp(PropSpec{ID: "C03",
-		Rules: []string{"REG.resolved", "REG.formals", "REG.arity", "REC.guarded", "GUARD.abandoned", "OVERFLOW.guard-arith"},
+		Rules: []string{"REG.resolved", "REG.formals", "REG.arity", "REC.guarded", "GUARD.abandoned", "OVERFLOW.guard-arith", "ACC.domain"},
 		Explanation: "panic classes of the interpreter decided per site",
 		Assumptions: []string{"go/types + go/cfg model of the working tree"},
 		ThoroughConfigs: []string{"elpscheck"},
